@@ -238,7 +238,7 @@ def rand_sched(rng, pre):
     for _ in range(m):
         t += rng.randint(1, 5)
         ends.append(t)
-    return {"nums": nums, "ends": ends, "pre": pre, "off": rng.choice([0, 0, 1, 2])}
+    return {"nums": nums, "ends": ends, "pre": pre, "off": rng.choice([0, 0, 1, 2, t, t + 1])}
 
 
 def gen_sched(rng, pre_choices=(0,)):
@@ -509,7 +509,7 @@ def gen_slot(rng):
             nd["kind"] = "slot"
             nd["c"] = 0
             nd["slot"] = {"slots": slots, "sizes": [rng.choice([0, 1, 2, 3]) for _ in range(m)], "cap": cap,
-                          "pre": (rng.choice([0, 1, 2, 3]) if cap else 0), "off": rng.choice([0, 0, 1])}
+                          "pre": (rng.choice([0, 1, 2, 3]) if cap else 0), "off": rng.choice([0, 0, 1, t, t + 1, 2 * t + 1])}
     for n in range(N):
         for k in range(K):
             sc["svcS"][n][k] = samples(rng, 1, 6, 2)
@@ -530,7 +530,7 @@ def gen_slotpre(rng):
     sc = {"N": 1, "K": K, "prio": ([0] * K if rng.random() < 0.5 else list(range(K))),
           "nodes": [{"kind": "slot", "c": 0, "qcap": INF,
                      "slot": {"slots": slots, "sizes": [rng.choice([0, 1, 2, 3, 4]) for _ in range(m)], "cap": True,
-                              "pre": rng.choice([1, 2, 3]), "off": rng.choice([0, 1])}}],
+                              "pre": rng.choice([1, 2, 3]), "off": rng.choice([0, 1, t, t + 2])}}],
           "arrS": [[samples(rng, 1, 2, 2) for _ in range(K)]],
           "svcS": [[samples(rng, 4, 12, 2) for _ in range(K)]],
           "route": [tm([[0]]) for _ in range(K)], "T": rng.randint(20, 45)}
@@ -907,7 +907,7 @@ def gen_mix(rng):
             nd["kind"] = "slot"
             nd["c"] = 0
             nd["slot"] = {"slots": slots, "sizes": [rng.choice([0, 1, 2, 3]) for _ in range(m)], "cap": cap,
-                          "pre": (rng.choice([0, 1, 2, 3]) if cap else 0), "off": rng.choice([0, 0, 1])}
+                          "pre": (rng.choice([0, 1, 2, 3]) if cap else 0), "off": rng.choice([0, 0, 1, t, t + 1, 2 * t + 1])}
         else:
             if nd["c"] >= INF:
                 nd["qcap"] = INF
@@ -1187,7 +1187,7 @@ def mc_instances(name, tier):
         return [(fam, 4 if not big else 5)]
     if name == "sched":
         fam = []
-        for nums, ends, off in ([[1, 0], [2, 4], 0], [[2, 1], [3, 5], 1], [[0, 2, 1], [1, 3, 4], 0]):
+        for nums, ends, off in ([[1, 0], [2, 4], 0], [[2, 1], [3, 5], 1], [[0, 2, 1], [1, 3, 4], 0], [[1, 2], [1, 2], 3]):
             fam.append({"N": 1, "K": 1, "nodes": [{"kind": "sched", "c": 0, "sched": {"nums": nums, "ends": ends, "pre": 0, "off": off}}],
                         "arrS": [[[1, 2]]], "svcS": [[[1, 3]]], "route": [tm([[0]])], "T": 9 if not big else 12})
         return [(fam, 4 if not big else 5)]
@@ -1207,6 +1207,10 @@ def mc_instances(name, tier):
                         "slot": {"slots": [2, 3], "sizes": [2, 1], "cap": cap, "pre": pre, "off": 0}}],
                         "arrS": [[[1, 2]]], "batchS": [[[1, 2]]], "svcS": [[[1, 4]]], "route": [tm([[0]])],
                         "T": 9 if not big else 12})
+        fam.append({"N": 1, "K": 1, "nodes": [{"kind": "slot", "c": 0,
+                    "slot": {"slots": [1, 2], "sizes": [1, 2], "cap": False, "pre": 0, "off": 3}}],
+                    "arrS": [[[1, 2]]], "batchS": [[[1, 2]]], "svcS": [[[1, 4]]], "route": [tm([[0]])],
+                    "T": 9 if not big else 12})
         return [(fam, 5 if not big else 6)]
     if name == "overblock":
         fam = []
